@@ -1477,3 +1477,144 @@ class kt_from_vector(Contract):
             yield "round-trip:same-weights", T.ForAll([t], z3.Implies(z3.And(0 <= t, t < R0), T.tz(T.as_real(w.fn(t))) == W0(t)))
             yield "round-trip:same-factors", T.ForAll([m, c, i], z3.Implies(z3.And(0 <= m, m < Nn, 0 <= c, c < R0, 0 <= i, i < d(m)),
                                                                            T.tz(T.as_real(fms.item(m).fn(i, c))) == F0(m, i, c)))
+
+
+# ======================================================================= symmetrize (C15: the Kruskal result is symmetric)
+
+def _abs_kt_normalize_all(it, pos, kw, self_val):
+    """K.normalize('all') in place: the weights are spread over the factors -- abstracted to ARBITRARY new weights and factor
+    entries of the same shapes (that form of normalize is bounded only; nothing proved here depends on the values)"""
+    g = self_val.ghost
+    F = z3.Function(T.fresh_name("nall_fm"), I_, I_, I_, z3.RealSort())
+    W = z3.Function(T.fresh_name("nall_w"), I_, z3.RealSort())
+    heap = self_val.fields["factor_matrices"]
+    heap.entry = lambda m, i, j: F(T.tz(m), T.tz(i), T.tz(j))
+    heap.gen += 1
+    self_val.fields["weights"] = Arr((g["R"],), lambda j: W(T.tz(j)), "real")
+    return self_val
+
+
+@register
+class kt_symmetrize(Contract):
+    qual = K_ + "symmetrize"
+    props = ("C15",)
+    doc = ("K.symmetrize() for a Kruskal tensor of any order and rank: a tensor whose mode sizes are not all equal is rejected; "
+           "otherwise the result is a NEW Kruskal tensor with one factor matrix per mode, all of them entry-wise equal (shape "
+           "shape[0] x R) and R weights -- i.e. it is symmetric in all modes and passes ktensor.issymmetric (whose contract says: "
+           "True exactly when every two factor matrices are entry-wise equal).  The values (sign alignment, averaging) are not "
+           "specified here; normalize('all'), the column inner products and the averaging are abstracted (arbitrary values).")
+    inline = KT_INLINE
+
+    def abstract_calls(self, S, a):
+        return {K_ + "copy": _abs_kt_copy, K_ + "normalize": _abs_kt_normalize_all}
+
+    def setup(self, S, case):
+        S.ctx.matmul_havoc = True
+        K = sym_ktensor(S, "K")
+        return dict(__self__=K)
+
+    # the loops only change values (sign flips, running sum): every written variable keeps its shape, which is all the
+    # postcondition needs -- the invariants say exactly that, the havoc is "arbitrary values of that shape"
+    @staticmethod
+    def _havoc(S, a, env, name):
+        g = a["__self__"].ghost
+        if name == "K":
+            return _havoc_kt(S, env["K"], "sy")
+        if name == "weights":
+            return env["K"].fields["weights"]  # the local is an alias of the object's weight vector
+        return Arr.fresh("V", (T.tz(g["shape"].fn(0)), g["R"]), "real")
+
+    @staticmethod
+    def _inv(S, a, env):
+        g = a["__self__"].ghost
+        V = env["V"]
+        if not (isinstance(V, Arr) and V.ndim == 2):
+            return False
+        return z3.And(T.tz(T.eq(V.shape[0], g["shape"].fn(0))), T.tz(T.eq(V.shape[1], g["R"])))
+
+    loops = {0: dict(modifies=["K", "weights", "V"], inv=lambda S, a, env, i: kt_symmetrize._inv(S, a, env), havoc=lambda S, a, env, name: kt_symmetrize._havoc(S, a, env, name)),
+             1: dict(modifies=["K", "weights"], inv=lambda S, a, env, i: True, havoc=lambda S, a, env, name: kt_symmetrize._havoc(S, a, env, name)),
+             2: dict(modifies=["weights", "V"], inv=lambda S, a, env, i: kt_symmetrize._inv(S, a, env), havoc=lambda S, a, env, name: (kt_symmetrize._havoc(S, a, env, "K") and None) if False else kt_symmetrize._havoc2(S, a, env, name))}
+
+    @staticmethod
+    def _havoc2(S, a, env, name):
+        g = a["__self__"].ghost
+        if name == "weights":
+            W = z3.Function(T.fresh_name("sy_w"), I_, z3.RealSort())
+            env["K"].fields["weights"] = Arr((g["R"],), lambda j: W(T.tz(j)), "real")
+            return env["K"].fields["weights"]
+        return Arr.fresh("V", (T.tz(g["shape"].fn(0)), g["R"]), "real")
+
+    def raises_when(self, S, a):
+        g = a["__self__"].ghost
+        m = z3.Int("sy!m")
+        yield "mode-sizes-differ", T.Exists([m], z3.And(0 <= m, m < g["N"], T.tz(g["shape"].fn(m)) != T.tz(g["shape"].fn(0))))
+
+    def ensures(self, S, a, ret):
+        K = a["__self__"]
+        g = K.ghost
+        ok = isinstance(ret, Rec) and ret.cls == "ktensor" and ret is not K and isinstance(ret.fields.get("factor_matrices"), SymList)
+        yield "returns-a-new-ktensor", ok
+        if not ok:
+            return
+        fms, w = ret.fields["factor_matrices"], ret.fields["weights"]
+        m, i, c = z3.Int("sy!em"), z3.Int("sy!ei"), z3.Int("sy!ec")
+        I0 = T.tz(g["shape"].fn(0))
+        yield "one-factor-per-mode", S.eq(fms.length, g["N"])
+        yield "weights-one-per-component", S.eq(w.shape[0], g["R"])
+        yield "factor-shapes", T.ForAll([m], z3.Implies(z3.And(0 <= m, m < g["N"]), z3.And(T.tz(T.eq(fms.item(m).shape[0], I0)), T.tz(T.eq(fms.item(m).shape[1], g["R"])))))
+        yield "all-factor-matrices-entry-wise-equal", T.ForAll([m, i, c], z3.Implies(z3.And(0 <= m, m < g["N"], 0 <= i, i < I0, 0 <= c, c < g["R"]),
+                                                                                  T.tz(T.as_real(fms.item(m).fn(i, c))) == T.tz(T.as_real(fms.item(0).fn(i, c)))))
+
+
+# ======================================================================= tolist (C08: the list of factor matrices)
+
+@register
+class kt_tolist(Contract):
+    qual = K_ + "tolist"
+    props = ("C08",)
+    quantified_pc = True   # the branch "all weights are one" is decided by a quantified hypothesis
+    doc = ("K.tolist() for a Kruskal tensor whose weights are all one (the case in which the list alone determines the tensor): "
+           "the result is a list with one matrix per mode, entry-wise equal to the factor matrices -- so ktensor(K.tolist()) "
+           "(proved constructor: copies the list, weights one) reproduces K exactly.  K.tolist(mode) with a mode that is not "
+           "an int in range raises.  Other weights (the weights are spread with fractional powers) and tolist(mode) values: bounded.")
+    inline = KT_INLINE
+
+    def abstract_calls(self, S, a):
+        # only reached by tolist(mode) with a valid mode (bounded) -- present so that a path that wrongly accepts a bad mode
+        # returns (and fails the must-raise obligation) instead of stopping the executor
+        return {K_ + "copy": _abs_kt_copy, K_ + "normalize": _abs_kt_normalize_all}
+
+    def case_names(self):
+        return ["unit-weights", "bad-mode"]
+
+    def setup(self, S, case):
+        K = sym_ktensor(S, "K")
+        g = K.ghost
+        if case == "bad-mode":
+            mode = S.int("mode")
+            S.assume(z3.Or(mode < 0, mode >= g["N"]))
+            return dict(__self__=K, mode=mode, __bad__=True)
+        r = z3.Int("tl!r")
+        S.assume(T.ForAll([r], z3.Implies(z3.And(0 <= r, r < g["R"]), T.tz(K.fields["weights"].fn(r)) == 1), [K.fields["weights"].fn(r)]))
+        return dict(__self__=K)
+
+    def raises_when(self, S, a):
+        if a.get("__bad__"):
+            yield "mode-not-in-range", True
+
+    def ensures(self, S, a, ret):
+        K = a["__self__"]
+        g = K.ghost
+        ok = isinstance(ret, SymList)
+        yield "returns-a-list-of-matrices", ok
+        if not ok:
+            return
+        src = K.fields["factor_matrices"]
+        yield "a-new-list", ret is not src
+        m, i, c = z3.Int("tl!m"), z3.Int("tl!i"), z3.Int("tl!c")
+        d = lambda m_: T.tz(g["shape"].fn(m_))
+        yield "one-matrix-per-mode", S.eq(ret.length, g["N"])
+        yield "shapes", T.ForAll([m], z3.Implies(z3.And(0 <= m, m < g["N"]), z3.And(T.tz(T.eq(ret.item(m).shape[0], d(m))), T.tz(T.eq(ret.item(m).shape[1], g["R"])))))
+        yield "entries-are-the-factor-entries", T.ForAll([m, i, c], z3.Implies(z3.And(0 <= m, m < g["N"], 0 <= i, i < d(m), 0 <= c, c < g["R"]),
+                                                                           T.tz(T.as_real(ret.item(m).fn(i, c))) == g["fm"](m, i, c)))
